@@ -14,6 +14,10 @@ use hist::{ParentCfg, Scenario, WorkerArgs};
 fn hist_scenarios(id: &str, tier: &str) -> Option<(Vec<Scenario>, Option<hist::OracleFactory>)> {
     match id {
         "C01" => Some((props::c01::scenarios(tier), None)),
+        "C02" => Some((props::c02::scenarios(tier), None)),
+        "C03" => Some((props::c03::scenarios(tier), None)),
+        "C05" => Some((props::c05::scenarios(tier), None)),
+        "C10" => Some((props::c10::scenarios(tier), None)),
         _ => None,
     }
 }
